@@ -184,14 +184,17 @@ Proof.
       * right. cbn [at_level]. apply in_or_app. right. apply in_flat_map. exists k. split; auto.
 Qed.
 
-Lemma wfb_roots t fo : wfb t fo = true -> Forall (fun h => wf_node t h = true) (fo_roots fo).
+Lemma wfb_core t fo : wfb t fo = true -> wfbc t fo = true.
+Proof. unfold wfb. intros H. apply andb_true_iff in H as [H _]. exact H. Qed.
+
+Lemma wfb_roots t fo : wfbc t fo = true -> Forall (fun h => wf_node t h = true) (fo_roots fo).
 Proof.
-  unfold wfb. rewrite !andb_true_iff. intros (((((H & _) & _) & _) & _) & _).
+  unfold wfbc. rewrite !andb_true_iff. intros ((((H & _) & _) & _) & _).
   apply Forall_forall. apply forallb_forall. exact H.
 Qed.
 
 Theorem compose_forest t fo A B C sA sB c fc ch :
-  wfb t fo = true -> B = sA ++ A -> sA <> [] -> C = sB ++ B -> sB <> [] ->
+  wfbc t fo = true -> B = sA ++ A -> sA <> [] -> C = sB ++ B -> sB <> [] ->
   In (c, fc, ch) (genome_nodes fo C) ->
   match walk B fc ch with
   | (Some y, f1) =>
